@@ -2449,7 +2449,7 @@ func (d *Data) NewLabels(geom dvid.Geometry, img interface{}) (*Labels, error) {
 			return nil, fmt.Errorf("illegal geometry requested: %s", geom)
 		}
 		requestSize := int64(bytesPerVoxel) * numVoxels
-		if requestSize > server.MaxDataRequest {
+		if requestSize <= 0 || requestSize > server.MaxDataRequest {
 			return nil, fmt.Errorf("requested payload (%d bytes) exceeds this DVID server's set limit (%d)",
 				requestSize, server.MaxDataRequest)
 		}
